@@ -5,6 +5,7 @@ import (
 	"fmt"
 	"runtime"
 	"sort"
+	"strconv"
 	"strings"
 	"sync"
 	"sync/atomic"
@@ -46,11 +47,36 @@ type nodeRig struct {
 func slotName(s int) string { return fmt.Sprintf("node-%04d", s) }
 func slotKey(s int) string  { return node.NodeIDKeyPrefix + slotName(s) }
 func slotOfKey(k string) int {
-	var s int
-	if _, err := fmt.Sscanf(strings.TrimPrefix(k, node.NodeIDKeyPrefix), "node-%04d", &s); err != nil {
+	k, ok := strings.CutPrefix(k, node.NodeIDKeyPrefix+"node-")
+	if !ok || len(k) != 4 {
+		return 0
+	}
+	s, err := strconv.Atoi(k)
+	if err != nil {
 		return 0
 	}
 	return s
+}
+
+// claimTier is the claim-tier double as the allocators see it. An unsuccessful AllocateNodeID probes
+// all 1000 slots; the 998+ slots beyond the contended range are held by foreign nodes for the whole
+// behaviour, and each probe through the double costs two goroutine-id look-ups (runtime.Stack) and a
+// log entry - 3/4 of the drive time. The answer of the double for such a probe is known: (false, nil)
+// while the foreign claim is there. claimTier gives that answer directly and passes everything else
+// (every operation on the contended slots, every probe of a foreign slot whose key is gone, every
+// other operation on any key) to the double.
+type claimTier struct {
+	*doubles.Store
+	nslots int
+}
+
+func (c claimTier) SetNX(key string, value any, ttl time.Duration) (bool, error) {
+	if slotOfKey(key) > c.nslots {
+		if _, ok := c.Store.Peek(key); ok {
+			return false, nil
+		}
+	}
+	return c.Store.SetNX(key, value, ttl)
 }
 
 func newNodeRig(wiring string, nodes []string, nslots int, taken []int, free, realTTL bool) *nodeRig {
@@ -71,6 +97,7 @@ func newNodeRig(wiring string, nodes []string, nslots int, taken []int, free, re
 		return (op == "SetNX" || op == "Delete") && s >= 1 && s <= nslots
 	}
 	var one storage.Storage
+	tier := claimTier{r.claim, nslots}
 	for _, n := range nodes {
 		var st storage.Storage
 		switch wiring {
@@ -78,12 +105,12 @@ func newNodeRig(wiring string, nodes []string, nslots int, taken []int, free, re
 			c := doubles.NewStore("cache-"+n, r.s)
 			c.GateOn = func(op, key string) bool { return false }
 			r.caches[n] = c
-			st = hybrid.NewWithSharedCache(ctx, c, r.claim, nil, hybrid.DefaultConfig())
+			st = hybrid.NewWithSharedCache(ctx, c, tier, nil, hybrid.DefaultConfig())
 		case "same":
-			st = hybrid.NewWithSharedCache(ctx, r.claim, r.claim, nil, hybrid.DefaultConfig())
+			st = hybrid.NewWithSharedCache(ctx, tier, tier, nil, hybrid.DefaultConfig())
 		case "local":
 			if one == nil {
-				one = hybrid.New(ctx, r.claim, nil, hybrid.DefaultConfig())
+				one = hybrid.New(ctx, tier, nil, hybrid.DefaultConfig())
 			}
 			st = one
 		default:
@@ -211,6 +238,27 @@ func (r *nodeRig) release(n, id string) (res genRes) {
 	return genRes{ok: err == nil, id: id, err: nodeErrClass(err)}
 }
 
+const renewPeriod = 30 * time.Second // the allocator's ticker period (a constant in heartbeatLoop)
+
+// attempts counts the heartbeat's Set calls (successful or failed) on the claim key of slot s, in
+// the claim tier and in node n's local cache.
+func (r *nodeRig) attempts(n string, s int) int {
+	k := 0
+	for _, c := range r.claim.Log() {
+		if c.Op == "Set" && c.Key == slotKey(s) {
+			k++
+		}
+	}
+	if c := r.caches[n]; c != nil {
+		for _, x := range c.Log() {
+			if x.Op == "Set" && x.Key == slotKey(s) {
+				k++
+			}
+		}
+	}
+	return k
+}
+
 // writes counts the heartbeat renewals (plain Set) of the claim key of slot s, per tier
 func (r *nodeRig) writes(n string, s int) (claimTier, localTier int) {
 	for _, c := range r.claim.Log() {
@@ -242,12 +290,29 @@ func (r *nodeRig) deletes(s int) int {
 // are scheduled at the SetNX / Delete of the claim tier; Renew is the real 30 s heartbeat and is
 // waited for; Expire is the real 90 s TTL of the claim key (doubles.Store.RealTTL) and is waited
 // for; Tick is bookkeeping of the model only.
+//
+// Clock = "fake" (lease histories, see bubble.go; the caller runs this function inside a fake-clock
+// bubble): Tick arms the transient store faults of the period that begins (the Renew steps with
+// result "fail" up to the next Tick: the next Set on that holder's claim key fails) and lets one
+// renew period (30 s) of virtual time pass - every running heartbeat fires once in it; a Renew step
+// then consumes that holder's attempt (or finds, after a margin, that the heartbeat is silent). After
+// the last step - also when the real code left the script - every call is completed and the history
+// is continued by a model-valid suffix that turns a lost lease into the event the property speaks
+// about: a fresh node allocates (q1), Tail fault-free periods pass, another fresh node allocates (q2).
 func driveNode(env *fw.Env, b *behaviour) *fw.Trace {
+	fake := b.Clock == "fake"
 	nodes := []string{"n1", "n2", "n3"}
+	if fake {
+		nodes = append(nodes, "q1", "q2")
+	}
 	r := newNodeRig(b.Store, nodes, b.NSlots, b.Tk, false, b.Timed)
 	defer r.close()
+	r.fault.maxConsec = max(b.MaxCF, 1)
 	t := &fw.Trace{Status: fw.Realised}
 	d := "node:" + b.Store
+	if fake {
+		d += ":lease"
+	}
 	t.Events = append(t.Events, fw.Event{"ev": "Cfg", "d": d, "scope": true, "taken": takenSlots(b.Tk)})
 	type ncall struct {
 		name, p, op, id string
@@ -259,7 +324,7 @@ func driveNode(env *fw.Env, b *behaviour) *fw.Trace {
 	// 50 ms records the longest gap it saw (a stall of the whole process would delay heartbeats and
 	// the driver alike while the store's real-time TTLs run on)
 	var maxGap atomic.Int64
-	if b.Timed {
+	if b.Timed && !fake {
 		stop := make(chan struct{})
 		defer close(stop)
 		go func() {
@@ -284,6 +349,8 @@ func driveNode(env *fw.Env, b *behaviour) *fw.Trace {
 	lastW := map[string]time.Time{} // time of the claim / last renewal consumed
 	expLogged := map[int]bool{}
 	delsAtClaim := map[string]int{}
+	attAtClaim := map[string]int{} // fake clock: Set attempts on the holder's claim key when it was claimed ...
+	consumed := map[string]int{}   // ... and attempts since then consumed by Renew steps
 	logRet := func(a *ncall) {
 		if a.logged {
 			return
@@ -302,7 +369,19 @@ func driveNode(env *fw.Env, b *behaviour) *fw.Trace {
 			hold[a.p] = slotOfKey(node.NodeIDKeyPrefix + res.id)
 			lastW[a.p] = time.Now()
 			delsAtClaim[a.p] = r.deletes(hold[a.p])
+			attAtClaim[a.p], consumed[a.p] = r.attempts(a.p, hold[a.p]), 0
+			silent[a.p] = false
 		}
+	}
+	// one allocation by a fresh node, called directly (after Drain the scheduler lets everything pass)
+	probe := func(q string) {
+		t.Events = append(t.Events, fw.Event{"ev": "Call", "p": q, "op": "Gen", "id": ""})
+		res := r.alloc(q)
+		ev := fw.Event{"ev": "Ret", "p": q, "op": "Gen", "ok": res.ok, "id": res.id, "err": res.err}
+		if !res.ok {
+			ev["own"] = res.own
+		}
+		t.Events = append(t.Events, ev)
 	}
 	// a claim key of a live holder that vanished without a Delete was dropped by its TTL
 	observeExpiries := func() {
@@ -327,6 +406,24 @@ func driveNode(env *fw.Env, b *behaviour) *fw.Trace {
 			logRet(a)
 		}
 		observeExpiries()
+		if fake && b.Tail > 0 {
+			r.fault.disarm()
+			for _, n := range nodes {
+				if hold[n] != 0 {
+					r.fault.disarmSet(slotKey(hold[n]))
+				}
+			}
+			probe("q1")
+			for k := 0; k < b.Tail; k++ {
+				time.Sleep(renewPeriod)
+				observeExpiries()
+			}
+			probe("q2")
+			observeExpiries()
+		}
+		if r.fault.suppressed > 0 {
+			note += fmt.Sprintf("[%d transient faults not delivered: they would have been more than %d in a row] ", r.fault.suppressed, r.fault.maxConsec)
+		}
 		r.snapshot(t)
 		t.Note = note
 		if g := time.Duration(maxGap.Load()); g > 10*time.Second {
@@ -343,7 +440,7 @@ func driveNode(env *fw.Env, b *behaviour) *fw.Trace {
 			return finish(fmt.Sprintf("diverged at step %d (%s %s): ", i, st.P, st.A) + fmt.Sprintf(f, x...))
 		}
 		observeExpiries()
-		if st.A == "Renew" || st.A == "Expire" {
+		if (st.A == "Renew" && !fake) || st.A == "Expire" { // (fake clock: a Renew step takes no time, the attempt was made during Tick)
 			// model assumption: a Release call does not last a renew period - so the driver must not
 			// let real time pass while it keeps one parked in front of its Delete
 			for _, a := range started {
@@ -354,7 +451,7 @@ func driveNode(env *fw.Env, b *behaviour) *fw.Trace {
 		}
 		switch st.A {
 		case "CallAlloc":
-			a := &ncall{name: st.P + ".alloc", p: st.P, op: "Gen"}
+			a := &ncall{name: fmt.Sprintf("%s.alloc%d", st.P, len(started)), p: st.P, op: "Gen"}
 			cur[st.P] = a
 			started = append(started, a)
 			t.Events = append(t.Events, fw.Event{"ev": "Call", "p": st.P, "op": "Gen", "id": ""})
@@ -415,7 +512,7 @@ func driveNode(env *fw.Env, b *behaviour) *fw.Trace {
 				continue
 			}
 			id := slotName(hold[st.P])
-			a := &ncall{name: st.P + ".rel", p: st.P, op: "Rel", id: id}
+			a := &ncall{name: fmt.Sprintf("%s.rel%d", st.P, len(started)), p: st.P, op: "Rel", id: id}
 			cur[st.P] = a
 			started = append(started, a)
 			t.Events = append(t.Events, fw.Event{"ev": "Call", "p": st.P, "op": "Rel", "id": id})
@@ -430,7 +527,14 @@ func driveNode(env *fw.Env, b *behaviour) *fw.Trace {
 			if a == nil || a.op != "Rel" {
 				return &fw.Trace{Status: fw.DriverError, Note: "Del before CallRel"}
 			}
-			if ns, _ := r.s.Step(a.name); ns != sched.Done {
+			if st.R == "fault" {
+				r.fault.arm("Delete", node.NodeIDKeyPrefix+a.id) // the single store fault: this Delete returns an error
+			}
+			ns, _ := r.s.Step(a.name)
+			if st.R == "fault" && !r.fault.spent() {
+				return &fw.Trace{Status: fw.DriverError, Note: "the armed store fault was not consumed by Delete"}
+			}
+			if ns != sched.Done {
 				return div("expected the release to return, is %s", ns)
 			}
 			logRet(a)
@@ -438,13 +542,58 @@ func driveNode(env *fw.Env, b *behaviour) *fw.Trace {
 			r.ncancel[st.P]() // the node's context ends: its heartbeat loop stops, the key is left to its TTL
 			hold[st.P] = 0
 			t.Events = append(t.Events, fw.Event{"ev": "Crash", "p": st.P})
-			time.Sleep(5 * time.Millisecond)
+			if fake {
+				settle() // the heartbeat goroutine has seen the cancelled context
+			} else {
+				time.Sleep(5 * time.Millisecond)
+			}
 		case "Tick":
-			// model time only; real time passes in Renew and Expire
+			// real clock: model time only; real time passes in Renew and Expire
+			if fake {
+				for j := i + 1; j < len(b.St) && b.St[j].A != "Tick"; j++ {
+					if x := b.St[j]; x.A == "Renew" && x.R == "fail" && hold[x.P] != 0 && !silent[x.P] {
+						r.fault.armSet(slotKey(hold[x.P])) // transient store error for this holder's renewal of this period
+					}
+				}
+				time.Sleep(renewPeriod)
+				// every heartbeat whose tick is due at this very instant makes its attempt now, before the next
+				// step. (Otherwise: Tick, CallRel(m) - m's loop may still pick its due tick over the closed
+				// stop channel, its Set then waits for hybrid's key lock held by the Release parked at its
+				// Delete, a goroutine blocked on a mutex keeps the bubble from ever being idle, and the next
+				// sleep of the driver would never end.) Nothing is parked inside a lock here: the model lets
+				// no period pass while a Release is in progress, and allocations park outside hybrid's locks.
+				settle()
+			}
 		case "Renew":
 			n, s := st.P, hold[st.P]
 			if s == 0 {
 				return div("node holds nothing")
+			}
+			if fake {
+				if silent[n] {
+					continue // (the period has passed in Tick)
+				}
+				// the attempt of this period has been made during Tick, or is being made at this very instant
+				heard := false
+				for k := 0; k < 1000 && !heard; k++ {
+					if heard = r.attempts(n, s)-attAtClaim[n] > consumed[n]; !heard {
+						for _, a := range started {
+							if s0, _ := r.s.State(a.name); a.op == "Rel" && s0 != sched.Done {
+								return div("no renewal attempt yet and a Release call is in progress; time must not pass now")
+							}
+						}
+						time.Sleep(10 * time.Millisecond)
+					}
+				}
+				if !heard {
+					r.fault.disarmSet(slotKey(s))
+					silent[n] = true
+					t.Note += fmt.Sprintf("[diverged at step %d: no heartbeat of live node %s in its period] ", i, n)
+					continue
+				}
+				consumed[n]++
+				lastW[n] = time.Now()
+				continue
 			}
 			if silent[n] {
 				// the heartbeat of this live node has stopped: the model's renewal does not happen, the
@@ -504,9 +653,11 @@ func driveNode(env *fw.Env, b *behaviour) *fw.Trace {
 					break
 				}
 				rem, err := r.claim.GetExpiration(slotKey(s))
-				if err != nil || rem <= 0 || rem > node.NodeIDLockTTL+time.Second {
+				// (fake clock: the step is reached exactly when the TTL has run down to 0 - the key goes an instant later)
+				if err != nil || (rem <= 0 && !fake) || rem > node.NodeIDLockTTL+time.Second {
 					break
 				}
+				rem = max(rem, 0)
 				if k > 0 && rem > 31*time.Second {
 					break // it is being renewed: this claim does not expire
 				}
